@@ -30,6 +30,7 @@ def main():
         print(f"no check for {prop}")
         return 2
     ctx = common.Ctx(prop, tier, seed)
+    ctx.replay_mode = replay is not None
     # watchdog: a hung check is an infrastructure failure (exit 2), never a verdict
     import signal
 
